@@ -4,7 +4,9 @@
 (* workload: args.r replica, args.h block index, args.wl digest of the block's input, st.stores one       *)
 (* digest per module store (+ bank), st.txs results (ok, code, response hash, gas) of the block's         *)
 (* messages, st.evs the order-sensitive digests of the events emitted by BeginBlock, by every message and  *)
-(* by EndBlock (events are part of a transaction's / block hook's result), res the hook results.  The replica "gen" (the run that generated the workload) is the        *)
+(* by EndBlock (events are part of a transaction's / block hook's result), res the hook results.          *)
+(* Rerun nodes are repeated executions of ONE block from ONE committed state (args.h block, args.n        *)
+(* execution number) on cache branches of the same instance: execution 1 is the reference of the others.   The replica "gen" (the run that generated the workload) is the        *)
 (* reference; equality is transitive, so every pair of replicas is compared through it.                   *)
 EXTENDS Integers, Sequences, FiniteSets, TLC, Json
 CONSTANT LogFile, Ref
@@ -18,10 +20,17 @@ Spec == Init /\ [][Next]_cur
 
 Nd(i) == Log[i]
 IsBlock(nd) == nd.a = "Block"
+IsRerun(nd) == nd.a = "Rerun"
 RefIds == {j \in 1..NLog : IsBlock(Nd(j)) /\ Nd(j).args.r = Ref}
 MaxH == IF RefIds = {} THEN 0 ELSE CHOOSE m \in {Nd(j).args.h : j \in RefIds} : \A j \in RefIds : Nd(j).args.h <= m
 RefAt == [h \in 0..MaxH |-> CHOOSE j \in RefIds : Nd(j).args.h = h]
 HasRef(nd) == nd.args.h \in 0..MaxH
+(* reference of a repeated execution: execution 1 of the same block *)
+RerunFirst == {j \in 1..NLog : IsRerun(Nd(j)) /\ Nd(j).args.n = 1}
+RerunHs == {Nd(j).args.h : j \in RerunFirst}
+RerunRefAt == [h \in RerunHs |-> CHOOSE j \in RerunFirst : Nd(j).args.h = h]
+RefOf(nd) == IF IsRerun(nd) THEN Nd(RerunRefAt[nd.args.h]) ELSE Nd(RefAt[nd.args.h])
+Judged(nd) == (IsBlock(nd) /\ HasRef(nd)) \/ (IsRerun(nd) /\ nd.args.h \in RerunHs)
 
 (* the replica state of Replica.tla: [h, s, res] *)
 Rep(nd) == [h |-> nd.args.h, s |-> nd.st.stores, res |-> <<nd.st.txs, nd.res>>,
@@ -32,10 +41,10 @@ ConfSameBlocks(nd) == IsBlock(nd) => HasRef(nd) /\ nd.args.wl = Nd(RefAt[nd.args
 (* a replica applies the blocks in order, one per step *)
 ConfHeights(nd) == IsBlock(nd) /\ nd.parent > 0 /\ IsBlock(Nd(nd.parent)) => nd.args.h = Nd(nd.parent).args.h + 1 /\ nd.args.r = Nd(nd.parent).args.r
 
-C16SameState(nd)   == IsBlock(nd) /\ HasRef(nd) => Rep(nd).s   = Rep(Nd(RefAt[nd.args.h])).s
-C16SameResults(nd) == IsBlock(nd) /\ HasRef(nd) => Rep(nd).res = Rep(Nd(RefAt[nd.args.h])).res
+C16SameState(nd)   == Judged(nd) => Rep(nd).s   = Rep(RefOf(nd)).s
+C16SameResults(nd) == Judged(nd) => Rep(nd).res = Rep(RefOf(nd)).res
 (* the emitted events (type, attributes, order) are part of the results of transactions and block hooks *)
-C16SameEvents(nd)  == IsBlock(nd) /\ HasRef(nd) => Rep(nd).ev  = Rep(Nd(RefAt[nd.args.h])).ev
+C16SameEvents(nd)  == Judged(nd) => Rep(nd).ev  = Rep(RefOf(nd)).ev
 
 Formulas == <<"Conf_SameBlocks", "Conf_Heights", "C16_SameState", "C16_SameResults", "C16_SameEvents">>
 Holds(f, i) ==
@@ -54,6 +63,9 @@ Stats == PrintT(<<"STATS", [nodes |-> NLog,
    compared  |-> Cardinality({j \in 1..NLog : IsBlock(Nd(j)) /\ Nd(j).args.r # Ref /\ HasRef(Nd(j))}),
    txs       |-> Cardinality({<<j, k>> \in {<<a, b>> \in (1..NLog) \X (1..200) : IsBlock(Nd(a)) /\ Nd(a).args.r = Ref /\ b <= Nd(a).st.ntx} : TRUE}),
    okTxs     |-> Cardinality({<<a, b>> \in (1..NLog) \X (1..200) : IsBlock(Nd(a)) /\ Nd(a).args.r = Ref /\ b <= Nd(a).st.ntx /\ Nd(a).st.txs[b].ok}),
+   reruns    |-> Cardinality({j \in 1..NLog : IsRerun(Nd(j)) /\ Nd(j).args.n > 1}),
+   rerunBlocks |-> Cardinality(RerunHs),
+   rerunFailedTxs |-> Cardinality({<<a, b>> \in RerunFirst \X (1..200) : b <= Nd(a).st.ntx /\ ~Nd(a).st.txs[b].ok}),
    refBlocksWithEvents |-> Cardinality({j \in RefIds : Nd(j).st.evs.n > 0}),
    halted    |-> Cardinality({j \in 1..NLog : IsBlock(Nd(j)) /\ (Nd(j).res.begin \/ Nd(j).res.end)}) ]>>)
 AllSeen == Stats /\ TLCGet("stats").distinct = NLog
